@@ -50,6 +50,7 @@ type SendOp struct {
 	OK     bool
 	Done   bool
 	Seqno  uint64 // message seqno, known after a successful return
+	Ref    int    // index of the ClientPeerRef the call was made on (several refs may share one session)
 	cancel context.CancelFunc
 }
 
@@ -63,6 +64,8 @@ type RecvOp struct {
 	Msg  *signaling_rpc.SessionMsg
 	Err  string
 	Done bool
+	Ref  int  // index of the ClientPeerRef the call was made on
+	Pre  bool // the context was already cancelled when Recv was called
 }
 
 // App is the application on top of one real client: it issues Send / Recv
@@ -74,7 +77,9 @@ type App struct {
 	mu    sync.Mutex
 	sends []*SendOp
 	recvs []*RecvOp
-	wg    sync.WaitGroup
+	// cancel functions of the receive activities (RecvLoop / RecvOnce), in start order
+	recvCancels []context.CancelFunc
+	wg          sync.WaitGroup
 }
 
 // NewApp makes an application recorder.
@@ -82,8 +87,13 @@ func NewApp(name string, clock *atomic.Int64) *App { return &App{Name: name, Clo
 
 // Send starts ref.Send(payload id) in a new goroutine.
 func (a *App) Send(ctx context.Context, ref *signaling_client.ClientPeerRef, to, id string) *SendOp {
+	return a.SendRef(ctx, ref, 0, to, id)
+}
+
+// SendRef is Send on the refIdx-th reference the application holds to that peer.
+func (a *App) SendRef(ctx context.Context, ref *signaling_client.ClientPeerRef, refIdx int, to, id string) *SendOp {
 	sctx, cancel := context.WithCancel(ctx)
-	op := &SendOp{Peer: a.Name, To: to, ID: id, cancel: cancel}
+	op := &SendOp{Peer: a.Name, To: to, ID: id, Ref: refIdx, cancel: cancel}
 	a.mu.Lock()
 	a.sends = append(a.sends, op)
 	a.mu.Unlock()
@@ -115,11 +125,22 @@ func (op *SendOp) Cancel() { Ev(); op.cancel() }
 // RecvLoop starts a goroutine calling ref.Recv until ctx ends or max messages
 // were returned (max <= 0: unbounded).
 func (a *App) RecvLoop(ctx context.Context, ref *signaling_client.ClientPeerRef, from string, max int) {
+	a.RecvLoopRef(ctx, ref, 0, from, max)
+}
+
+// RecvLoopRef is RecvLoop on the refIdx-th reference. The activity gets its own
+// cancellable context (see CancelRecv): an application that gives up waiting.
+func (a *App) RecvLoopRef(pctx context.Context, ref *signaling_client.ClientPeerRef, refIdx int, from string, max int) {
+	ctx, cancel := context.WithCancel(pctx)
+	a.mu.Lock()
+	a.recvCancels = append(a.recvCancels, cancel)
+	a.mu.Unlock()
 	a.wg.Add(1)
 	go func() {
 		defer a.wg.Done()
+		defer cancel()
 		for n := 0; max <= 0 || n < max; n++ {
-			op := &RecvOp{Peer: a.Name, From: from}
+			op := &RecvOp{Peer: a.Name, From: from, Ref: refIdx}
 			a.mu.Lock()
 			a.recvs = append(a.recvs, op)
 			a.mu.Unlock()
@@ -142,6 +163,59 @@ func (a *App) RecvLoop(ctx context.Context, ref *signaling_client.ClientPeerRef,
 			}
 		}
 	}()
+}
+
+// RecvOnce starts ONE ref.Recv call in its own goroutine with its own context;
+// pre = the context is cancelled BEFORE Recv is called (an application polling
+// with a dead context / that gave up just before). A Recv that returns an
+// error has not handed a message to the application.
+func (a *App) RecvOnce(pctx context.Context, ref *signaling_client.ClientPeerRef, refIdx int, from string, pre bool) {
+	ctx, cancel := context.WithCancel(pctx)
+	if pre {
+		cancel()
+	}
+	op := &RecvOp{Peer: a.Name, From: from, Ref: refIdx, Pre: pre}
+	a.mu.Lock()
+	a.recvCancels = append(a.recvCancels, cancel)
+	a.recvs = append(a.recvs, op)
+	a.mu.Unlock()
+	a.wg.Add(1)
+	op.Call = a.Clock.Add(1)
+	Ev()
+	go func() {
+		defer a.wg.Done()
+		defer cancel()
+		m, err := ref.Recv(ctx)
+		ret := a.Clock.Add(1)
+		a.mu.Lock()
+		op.Ret, op.Done = ret, true
+		if err != nil {
+			op.Err = err.Error()
+		} else {
+			op.Msg = m
+			op.ID = string(m.GetSignedMsg().GetData())
+		}
+		a.mu.Unlock()
+		Ev()
+	}()
+}
+
+// NRecvActivities returns the number of receive activities started so far.
+func (a *App) NRecvActivities() int { a.mu.Lock(); defer a.mu.Unlock(); return len(a.recvCancels) }
+
+// CancelRecv cancels the context of the n-th receive activity (RecvLoop /
+// RecvOnce, in start order). Returns false if there is no such activity.
+func (a *App) CancelRecv(n int) bool {
+	a.mu.Lock()
+	if n < 0 || n >= len(a.recvCancels) {
+		a.mu.Unlock()
+		return false
+	}
+	c := a.recvCancels[n]
+	a.mu.Unlock()
+	Ev()
+	c()
+	return true
 }
 
 // Sends returns a copy of the send operations.
